@@ -76,6 +76,8 @@ func (x *Exec) callFunc(fr *Frame, st *State, ins ssa.Instruction, callee *ssa.F
 	x.monitors(fr, st, key, relName(callee), "before", args, Value{}, callee.Signature, site)
 	var res Value
 	switch {
+	case key == iterKey && !(fr.top.con != nil && fr.top.con.Func == iterKey):
+		res = x.ruleIterWalk(fr, st, ins, callee, args, clo, site)
 	case x.specs.contracts[key] != nil && !x.specs.contracts[key].Inline && !(fr.top.con == x.specs.contracts[key] && fr.parent == nil && false):
 		res = x.applyContract(fr, st, x.specs.contracts[key], callee.Signature, args, site, key)
 	case ruleFor(key) != nil:
@@ -199,6 +201,10 @@ func (x *Exec) callInvoke(fr *Frame, st *State, ins ssa.Instruction, cc *ssa.Cal
 			res = Value{T: UF("error.Error", sortStr, recv.T)}
 			break
 		}
+		if impls, closed := x.closedImpls(cc.Value.Type(), cc.Method); len(impls) > 0 {
+			res = x.dispatchImpls(fr, st, ins, cc, recv, args, impls, closed, key, sig, site)
+			break
+		}
 		x.abstract[key] = true
 		x.assumed["A-extern: interface method "+key+" returns an unconstrained value and writes nothing visible to /repo code"] = true
 		old := st.alloc
@@ -208,6 +214,131 @@ func (x *Exec) callInvoke(fr *Frame, st *State, ins ssa.Instruction, cc *ssa.Cal
 	}
 	x.monitors(fr, st, key, key, "after", all, res, sig, site)
 	return res
+}
+
+// closedImpls: for an interface declared in /repo that has an unexported method (so that only types of its own
+// package can implement it), the implementing types together with their method. A call through such an interface
+// is a case split over these types.
+type implCase struct {
+	typ types.Type
+	fn  *ssa.Function
+}
+
+func (x *Exec) closedImpls(it types.Type, m *types.Func) ([]implCase, bool) {
+	n, ok := types.Unalias(it).(*types.Named)
+	if !ok || n.Obj().Pkg() == nil || !isRepoPkg(n.Obj().Pkg().Path()) {
+		return nil, false
+	}
+	iface, ok := n.Underlying().(*types.Interface)
+	if !ok {
+		return nil, false
+	}
+	closed := false
+	for i := 0; i < iface.NumMethods(); i++ {
+		if !iface.Method(i).Exported() {
+			closed = true
+		}
+	}
+	var out []implCase
+	var pkgs []*types.Package
+	if closed {
+		pkgs = []*types.Package{n.Obj().Pkg()}
+	} else {
+		// an open interface declared in /repo: dispatched only when every implementation found in the loaded repository
+		// packages is a workflow object type (the values such interfaces are applied to come out of the plan tree); other
+		// dynamic types remain possible and are treated as external code
+		var paths []string
+		for path := range x.w.Pkgs {
+			if isRepoPkg(path) {
+				paths = append(paths, path)
+			}
+		}
+		sort.Strings(paths)
+		for _, path := range paths {
+			pkgs = append(pkgs, x.w.Pkgs[path].Types)
+		}
+	}
+	for _, pkg := range pkgs {
+		sc := pkg.Scope()
+		for _, name := range sc.Names() {
+			tn, ok := sc.Lookup(name).(*types.TypeName)
+			if !ok || tn.IsAlias() {
+				continue
+			}
+			if nt, ok := tn.Type().(*types.Named); ok && nt.TypeParams().Len() > 0 {
+				continue
+			}
+			for _, t := range []types.Type{tn.Type(), types.NewPointer(tn.Type())} {
+				if _, isI := t.Underlying().(*types.Interface); isI {
+					continue
+				}
+				if types.Implements(t, iface) {
+					if !closed && pkg.Name() != "workflow" {
+						return nil, false
+					}
+					if fn := x.w.Prog.LookupMethod(t, m.Pkg(), m.Name()); fn != nil {
+						out = append(out, implCase{t, fn})
+					}
+					break
+				}
+			}
+		}
+	}
+	return out, closed
+}
+
+func (x *Exec) dispatchImpls(fr *Frame, st *State, ins ssa.Instruction, cc *ssa.CallCommon, recv Value, args []Value, impls []implCase, closed bool, key string, sig *types.Signature, site string) Value {
+	tag, val := Acc(recv.T, 0), Acc(recv.T, 1)
+	var sts []*State
+	var vals []Value
+	var known []*Term
+	for _, ic := range impls {
+		known = append(known, Eq(tag, typeTag(ic.typ)))
+	}
+	// a nil interface panics; any other dynamic type is impossible (the interface has an unexported method)
+	if fr.nopanic {
+		x.oblige(st, "safe", "nil", x.site(fr, ins), Not(Eq(tag, Int(0))), "method call on nil interface at "+x.pos(ins))
+	}
+	if closed {
+		st.pc = And(st.pc, Or(known...))
+	} else {
+		st.pc = And(st.pc, Not(Eq(tag, Int(0))))
+		other := st.clone()
+		other.pc = And(st.pc, Not(Or(known...)))
+		if other.pc != False {
+			x.abstract[key] = true
+			x.assumed["A-extern: interface method "+key+" on a dynamic type outside package workflow returns an unconstrained value and writes nothing visible to /repo code"] = true
+			old := other.alloc
+			other.alloc = Fresh("alloc_ext", "Int")
+			x.assume(other, Ge(other.alloc, old))
+			sts = append(sts, other)
+			vals = append(vals, x.resultValue(other, "inv_"+key, sig.Results()))
+		}
+	}
+	for _, ic := range impls {
+		cs := st.clone()
+		cs.pc = And(st.pc, Eq(tag, typeTag(ic.typ)))
+		if cs.pc == False {
+			continue
+		}
+		recvV := Value{T: x.unbox(val, ic.typ)}
+		v := x.callFunc(fr, cs, ins, ic.fn, append([]Value{recvV}, args...), nil, site)
+		if cs.pc != False {
+			sts = append(sts, cs)
+			vals = append(vals, v)
+		}
+	}
+	if len(sts) == 0 {
+		st.pc = False
+		return x.zeroValue(sig.Results())
+	}
+	m := mergeStates(sts)
+	v := vals[len(vals)-1]
+	for i := len(vals) - 2; i >= 0; i-- {
+		v = x.iteValue(sts[i].pc, vals[i], v)
+	}
+	*st = *m.clone()
+	return v
 }
 
 // callFuncValue: call of a function value that is not a static callee.
@@ -467,7 +598,7 @@ func (x *Exec) callBuiltin(fr *Frame, st *State, ins ssa.Instruction, b *ssa.Bui
 		x.doClose(fr, st, ins, args[0])
 		return Value{}
 	case "delete":
-		x.notes["map delete treated as no-op on abstract map"] = true
+		x.doMapDelete(fr, st, cc, args)
 		return Value{}
 	case "min", "max":
 		r := args[0].T
@@ -730,6 +861,10 @@ func (x *Exec) applyContract(fr *Frame, st *State, con *Contract, sig *types.Sig
 	res := x.resultValue(st, "res_"+key, sig.Results())
 	env2 := x.specEnvFor(con, sig, pkg, args, st, pre)
 	bindResults(env2, con, sig, res)
+	// ghost locals of the callee's contract are unknown to the caller (existentially quantified)
+	for _, g := range con.Ghosts {
+		env2.vars[g.Name] = SVal{T: Fresh("cg_"+g.Name, g.Sort)}
+	}
 	var posts []*Term
 	for _, e := range con.Ensures {
 		if e.Internal {
@@ -818,6 +953,18 @@ func (x *Exec) modRegion(e *Expr, env *SpecEnv) []modRegion {
 		return []modRegion{{Key: key, Sort: hs, In: func(ref, idx *Term) *Term {
 			return And(Eq(ref, sArr(t)), Ge(idx, Add(sOff(t), sLen(t))))
 		}}}
+	}
+	// mapof(m): every entry of map m
+	if e.Kind == "call" && e.Name == "mapof" && len(e.Args) == 1 {
+		m := env.eval(e.Args[0])
+		mt, ok := m.GT.Underlying().(*types.Map)
+		if !ok {
+			env.errf(e, "mapof() of a non-map")
+		}
+		vk, vs, pk, ps := mapHeapKeys(mt)
+		t := m.T
+		in := func(ref, idx *Term) *Term { return Eq(ref, t) }
+		return []modRegion{{Key: vk, Sort: vs, In: in}, {Key: pk, Sort: ps, In: in}}
 	}
 	// heap(KEY): a whole heap array
 	if e.Kind == "call" && e.Name == "heap" && len(e.Args) == 1 && e.Args[0].Kind == "id" {
@@ -932,7 +1079,7 @@ var volatileGhost = map[string]bool{"curAct": true}
 // only create new channels / contexts (entries of identities that existed at its entry are unchanged).
 func freshUnlessListed(g string) bool {
 	switch g {
-	case "ctxNoCancel", "ctxExpires", "ctxCancelled", "chClosed", "chCloser", "chExt", "chCap", "chLen", "chSeenClosed", "chErrSeen":
+	case "ctxVal", "ctxNoCancel", "ctxExpires", "ctxCancelled", "chClosed", "chCloser", "chExt", "chCap", "chLen", "chSeenClosed", "chErrSeen":
 		return true
 	}
 	return strings.HasPrefix(g, "chHas_")
